@@ -709,6 +709,11 @@ func (s *Server) filterBatchLocked(next jmessages) jmessages {
 			delete(s.call, id)
 			rsp.ch <- req
 			s.log("Received response for callback %q", id)
+		} else if s.allowP && req.M == "" && (req.E != nil || req.R != nil) {
+			// With push enabled, a reply that matches no pending callback is
+			// late, duplicated, or unsolicited. Answering it could be mistaken
+			// by the client for a reply to one of its own calls; discard it.
+			s.log("Discarding response for unknown callback %q", id)
 		} else {
 			keep = append(keep, req)
 		}
